@@ -24,6 +24,10 @@ type c19Cfg struct {
 	Send  bool `json:"send"`  // DialAndSend instead of DialWithContext
 	HSBad int  `json:"hsbad"` // TLS handshake behaviour: 0 ok, 1 wrong-name cert, 2 garbage, 3 drop
 	NoSTL bool `json:"nostarttls"`
+	// Fallback: the client is configured with WithTLSPortPolicy (port 587 with fallback to 25) and the first dial
+	// is refused, so the connection under test is the one of the fallback dial
+	Fallback bool `json:"fallback,omitempty"`
+	Msgs     int  `json:"msgs,omitempty"` // DialAndSend batch size (default 1)
 }
 
 type c19Case struct {
@@ -93,8 +97,13 @@ func c19Exec(r *vf.Run, cfg c19Cfg, c *vf.Chooser) (keys, whats []string) {
 	trace := &sasl.Trace{}
 	sess.NewAuth = saslFactory(conn, c19User, c19Pass, trace)
 	sess.Script = stdScriptN(c, 5)
+	dials := 0
 	rig := &hx.Rig{Mk: func(n int) *refsmtp.Conn {
-		if n > 0 {
+		dials++
+		if cfg.Fallback && dials == 1 {
+			return nil // primary port refused
+		}
+		if dials > 2 || (!cfg.Fallback && dials > 1) {
 			return nil
 		}
 		return conn
@@ -112,7 +121,11 @@ func c19Exec(r *vf.Run, cfg c19Cfg, c *vf.Chooser) (keys, whats []string) {
 	case 0:
 		opts = append(opts, mail.WithTLSPolicy(mail.TLSMandatory))
 	case 1:
-		opts = append(opts, mail.WithTLSPolicy(mail.TLSOpportunistic))
+		if cfg.Fallback {
+			opts = append(opts, mail.WithTLSPortPolicy(mail.TLSOpportunistic))
+		} else {
+			opts = append(opts, mail.WithTLSPolicy(mail.TLSOpportunistic))
+		}
 	case 2:
 		opts = append(opts, mail.WithTLSPolicy(mail.NoTLS))
 	case 3:
@@ -132,7 +145,11 @@ func c19Exec(r *vf.Run, cfg c19Cfg, c *vf.Chooser) (keys, whats []string) {
 	var opErr error
 	pan, pw := vf.Guard(func() {
 		if cfg.Send {
-			opErr = cl.DialAndSend(hx.StdMsg(0, 1, mail.EncodingQP))
+			var ms []*mail.Msg
+			for i := 0; i < maxInt(1, cfg.Msgs); i++ {
+				ms = append(ms, hx.StdMsg(i, 1+i%2, mail.EncodingQP))
+			}
+			opErr = cl.DialAndSend(ms...)
 		} else {
 			opErr = cl.DialWithContext(context.Background())
 		}
@@ -142,7 +159,7 @@ func c19Exec(r *vf.Run, cfg c19Cfg, c *vf.Chooser) (keys, whats []string) {
 		return
 	}
 	protoStates(r, sess.Transcript)
-	opened := len(rig.Conns) > 0
+	opened := len(rig.Conns) > 0 && dials > 0
 	closed := conn.ClientClosed()
 	// where did it fail? the last exchange that was not a plain success
 	failAt := "local"
@@ -228,6 +245,12 @@ func init() {
 									continue // a failed handshake never reaches AUTH or the send phase
 								}
 								cfgs = append(cfgs, c19Cfg{TLS: tlsm, Auth: a, Send: send, HSBad: hs, NoSTL: nostl})
+								if tlsm == 1 && hs == 0 && (a == 0 || a == 1) {
+									cfgs = append(cfgs, c19Cfg{TLS: tlsm, Auth: a, Send: send, HSBad: hs, NoSTL: nostl, Fallback: true})
+								}
+								if send && tlsm == 2 && (a == 0 || a == 2) {
+									cfgs = append(cfgs, c19Cfg{TLS: tlsm, Auth: a, Send: send, Msgs: 2}, c19Cfg{TLS: tlsm, Auth: a, Send: send, Msgs: 3})
+								}
 							}
 						}
 					}
